@@ -26,7 +26,7 @@ class Agreement(PipelineBase):
             if run.pick(2,'p%d'%i): prods['p']=[z3.BitVec('dp_%d'%i,8)]
             if i==0: sd=SigD(i,i)
             else:
-                mb=z3.BitVec('mb_%d'%i,8); run.solver.add(z3.ULE(mb,n))
+                mb=z3.BitVec('mb_%d'%i,8); run.add(z3.ULE(mb,n))
                 sd=SigD(i,mb,z3.Bool('in_%d'%i),z3.Bool('ov_%d'%i))
             ld=LinkD('s0',mats,prods)
             dirs[()].append(FileD('s0',i,BlockD('link',ld,[sd]))); links.append((ld,sd,i))
